@@ -7,42 +7,58 @@ SPEC = dict(
     harnesses=[dict(name="roster", asan=False, driver="qxdriver_c12")],
     exhaustive=True,
     rule="histories over {session opened (no SM / SM new / SM resumed), socket lost, stream closed cleanly, reconnect attempt "
-         "lost after the stream restart, answer (result/error) to the manager's own roster request from {server, own bare, own "
-         "full, others}, roster IQ set/get/result/error from {server, own bare, own full, stranger, look-alikes of the own JID}, "
-         "presence available/unavailable/other from several resources}: every session-legal sequence of exactly depth 5 (quick) "
-         "or 6 (thorough) over a 17-symbol roster alphabet and of depth 6 / 7 over a 12-symbol presence alphabet, a corpus of minimized histories, "
-         "plus seeded random histories of length 5..50 with random item lists. The real QXmppRosterManager runs behind the real "
+         "lost after the stream restart; answer (result/error) carrying the id of a roster get the client sent / of a mutator's set / "
+         "of nothing, from {server, own bare, own full, third party}, genuine or repeated; roster IQ set/get/result/error with 0..3 items "
+         "from {absent, from='', own bare, own full, other resource of the own account, other case, server domain, prefix/suffix look-alikes, "
+         "malformed, stranger}; presence available/unavailable/other from several resources; the manager's mutator API (addItem, "
+         "removeItem, renameItem, subscribe, unsubscribe, acceptSubscription, refuseSubscription and the task-returning variants); "
+         "configuration().setJid in mid-session; wire variants that must not matter (ver attribute, result without <query/>)}: "
+         "every session-legal sequence of exactly depth 5 (quick) or 6 (thorough) over a 17-symbol roster alphabet and a 14-symbol "
+         "forgery/API/reconfiguration alphabet, depth 6 / 7 over a 12-symbol presence alphabet, a corpus of minimized histories, plus "
+         "seeded random histories of length 5..50 with random item lists. The real QXmppRosterManager runs behind the real "
          "QXmppClient/QXmppOutgoingClient (IQ tracking, stanza dispatch, SM flags; only the socket is absent). Every line compares "
-         "signals emitted, IQs sent (roster get by order, result by id and `to`, error by id), isRosterReceived, the sorted contact list with "
-         "name/subscription/groups and the sorted presence table with status texts between implementation and Lean model; a "
-         "sequence is non-trivial when it yields >= 2 distinct observations",
+         "signals emitted, stanzas sent (roster get/set by order with the set's item, result by id and `to`, error by id, subscription "
+         "presences by type and `to`), isRosterReceived, the sorted contact list with name/subscription/groups and the sorted presence "
+         "table with status texts between implementation and Lean model; a sequence is non-trivial when it yields >= 2 distinct observations",
     trusted_base=[
         "Lean 4.33.0 kernel; axioms per theorem listed under coverage.theorems (subset of propext, Classical.choice, Quot.sound)",
         "hand-written model lean/Qx/Model/C12Roster.lean (cache of QXmppRosterManager.cpp, request bookkeeping of OutgoingIqManager, "
         "unhandled-IQ fallback of QXmppOutgoingClient::handleStanza), tied to the C++ by the correspondence run",
-        "the statement of specView / specPres / classify / classifyS in the model file as a faithful reading of the property text",
+        "the statement of specView / specPres / wireEvent (sender rules, literally restated by wire_push_iff / wire_full_iff / "
+        "wire_clear_iff) / classifyS in the model file as a faithful reading of the property text",
         "the harness produces session events by calling the library's own entry points (handleStart, C2sStreamManager::onEnabled/"
         "onResumed, openSession, _q_socketDisconnected, disconnectFromHost, handlePacketReceived) in the order the library does; "
         "QMap/QSet/QDom behaviour of Qt is exercised, not modelled",
     ],
     assumptions=[
-        "own JID configured (me@example.org/home); JIDs are compared as the code does (string equality after cutting at the first '/'), "
-        "no stringprep/case folding is modelled because the code applies none",
+        "JIDs are compared as the code does (string equality after cutting at the first '/'), no stringprep/case folding is modelled "
+        "because the code applies none; the configured JID may change in mid-session (op setJid)",
+        "accepted push sender = no `from` or bare(from) == configured bare JID: a FULL JID of the own account (another resource) is "
+        "accepted by the code and by the property text ('the user's own account'), although RFC 6121 2.1.6 admits only absent / own bare; "
+        "recorded as a deviation from the RFC, not as a violation of C12",
+        "roster versioning is not implemented by the manager (`ver` neither sent nor stored; a result without payload is an empty "
+        "roster); a push may carry any number of items, the code applies all of them in order and so does the model",
         "item payload limited to jid/name/subscription/groups (ask, approved, MIX annotations are parsed by the same code path but not observed)",
         "key order of the maps is not modelled (observations are sorted); driver-side display sorts and de-duplicates groups like QSet",
         "session-level exactness (session_view_exact) is proved at connected moments under the environment assumption "
         "resumesContinueSmSession: a resumed connect continues the latest session and that session had stream management "
         "(session_view_needs_assumption proves the assumption cannot be dropped); the harness generates resumptions only then",
     ],
-    level_text="Theorems for every history: contact list = last full roster of the session with later authorised pushes applied in order "
-               "(roster_refines_spec), isRosterReceived exact, presence table exact incl. stored status (presence_table_exact), no duplicate "
-               "keys, foreign roster IQ = no state change, no signal, no result (step and whole-history form), authorised push applied and "
-               "acknowledged exactly once, nothing survives a non-resumed connect (direct and non-interference form), view kept across "
-               "resumption, a `disconnected` outside an established session changes nothing; session-level exactness (property's own session "
-               "boundaries) for every history under one named environment assumption, shown necessary. Model tied "
-               "to the real manager+client by exhaustive and random correspondence; the property is also evaluated directly on the "
+    level_text="Theorems for every history: TOP roster_is_fold_of_honest_traffic — contact list = specView of the events an observer of "
+               "the stream determines with three literal rules (push <=> roster set with no sender or bare(sender)=configured bare JID; full "
+               "roster <=> IQ result with the id of a roster get the client sent, unanswered and not cancelled, with no sender or exactly the "
+               "bare JID that request was addressed to; boundary <=> non-resumed connect or session-ending disconnect without SM), all other "
+               "traffic filtered out; the rules are restated as iff-theorems (wire_push_iff, wire_full_iff, wire_clear_iff). Forged results: "
+               "forged_result_noop, third_party_result_noop, result_unused_id_noop, result_replay_noop, unsolicited_roster_result_noop (whole "
+               "state unchanged, nothing emitted). Foreign roster IQ = no state change, no signal, no result (step and whole-history form). "
+               "Mutator API and setJid change no state (api_changes_nothing, setJid_changes_no_state); remove of an unknown JID is silent. "
+               "Authorised push applied and acknowledged exactly once to its sender; isRosterReceived exact; presence table exact incl. stored "
+               "status; no duplicate keys; nothing survives a non-resumed connect (direct and non-interference form); view kept across "
+               "resumption; a `disconnected` outside an established session changes nothing; session-level exactness under one named "
+               "environment assumption, shown necessary. Model tied to the real manager+client by exhaustive and random correspondence; the "
+               "property (incl. 'a forged result / an API call / a JID change leaves the view alone') is also evaluated directly on the "
                "implementation by a reference fold over the history.",
-    level_note="Proved about the hand-written model; the model-to-code tie is differential (exhaustive to depth 5/6 (roster) and 6/7 (presence) over compact alphabets, "
+    level_note="Proved about the hand-written model; the model-to-code tie is differential (exhaustive to depth 5/6 (roster, forgery/API) and 6/7 (presence) over compact alphabets, "
                "sampled to length 50). The two earlier findings (cache wiped by a failed reconnect attempt before a resumption) are fixed in "
                "repo commit fd7e86c; their oracle keys and witness history stay in the harness.",
     design_ref="5.12",
